@@ -11,7 +11,7 @@ From NG Require Import Common.Tactics Node.Accept.
 Open Scope N_scope.
 
 Section Pool.
-  (* [tx_valid h t]: a fresh verification (verifyAndPoolTx) of t on the state after block h admits it *)
+  (* [tx_valid h t]: a fresh verification (verifyAndPoolTx) of t on the state after block h lets_in it *)
   Variable tx_valid : N -> N -> bool.
   (* [relevant h t]: what the refresh evaluates for a pooled transaction at height h (IsTxStillRelevant +
      fee/balance re-check of RemoveStale) *)
@@ -23,9 +23,9 @@ Section Pool.
   Definition in_pool (pool : list N) (t : N) : bool := existsb (N.eqb t) pool.
 
   (* AddBlock's loop: pooled => taken as verified; otherwise verified now *)
-  Definition admits (n : N) (pool : list N) (t : N) : bool :=
+  Definition lets_in (n : N) (pool : list N) (t : N) : bool :=
     negb verify || in_pool pool t || tx_valid n t.
-  Definition block_ok (n : N) (pool txs : list N) : bool := forallb (admits n pool) txs.
+  Definition block_ok (n : N) (pool txs : list N) : bool := forallb (lets_in n pool) txs.
 
   (* storeBlock of block n+1 *)
   Definition refresh (n : N) (pool txs : list N) : list N :=
